@@ -64,6 +64,10 @@ def check(model: Model, rep: Report, tier: str):
     from .c11 import f3
     with rep.isolated():
         f3(model, rep, "C09.P9")
+    from .c01 import r6
+    with rep.isolated():
+        share_rule(rep, model, r6, "C09.P11", "the record holds 'equally after flattening': flatten() re-inserts every operation through add_to_graph, which puts an operation whose "
+                   "reference was dissolved behind the latest node on its channels -- never blindly under the root, where the head of every later block would run first (= C01.R6)")
     rep.rules_text["C09.P9"] = ("the multi-round constructor builds every round as construct(...) -> apply_modifiers() -> flatten(): unrolling comes first, because flatten() "
                                 "drops the repetition counts of nested blocks and the round would run fewer cycles than requested (= C11.F3)")
 
